@@ -213,7 +213,7 @@ class Builder:
     def param(self, p):
         k = p["kind"]
         common = dict(short_name=p["name"], byte_position=p.get("bytepos"),
-                      bit_position=p.get("bitpos"))
+                      bit_position=p.get("bitpos"), semantic=p.get("semantic"))
         if k == "const":
             return mk(CodedConstParameter, diag_coded_type=diag_coded_type(p["type"]),
                       coded_value=_const_value(p["type"], p["value"]), **common)
